@@ -5,8 +5,9 @@ ROOT = os.path.dirname(os.path.dirname(os.path.abspath(__file__)))
 EXE = os.path.join(ROOT, "lean", ".lake", "build", "bin", "gvdrv")
 
 
-def batch(lines, nproc=16):
-    """Run request lines through gvdrv (split over processes); returns list of responses."""
+def batch(lines, nproc=16, timeout=3600):
+    """Run request lines through gvdrv (split over processes); returns list of responses.  A driver that does not answer within
+    `timeout` seconds is a machinery failure (exit 2), never a verdict."""
     if not lines:
         return []
     for l in lines:
@@ -21,7 +22,13 @@ def batch(lines, nproc=16):
     outs = [None] * n
 
     def run(i, p, ch):
-        o, _ = p.communicate("\n".join(ch) + "\n")
+        try:
+            o, _ = p.communicate("\n".join(ch) + "\n", timeout=timeout)
+        except subprocess.TimeoutExpired:
+            p.kill()
+            p.communicate()
+            outs[i] = None
+            return
         outs[i] = o.split("\n")
         if outs[i] and outs[i][-1] == "":
             outs[i].pop()
@@ -32,6 +39,8 @@ def batch(lines, nproc=16):
         t.join()
     res = [None] * len(lines)
     for i in range(n):
+        if outs[i] is None:
+            raise RuntimeError("driver did not answer %d requests within %d s (first: %s)" % (len(chunks[i]), timeout, chunks[i][0][:200]))
         if len(outs[i]) != len(chunks[i]):
             raise RuntimeError("driver answered %d lines for %d requests" % (len(outs[i]), len(chunks[i])))
         for j, o in enumerate(outs[i]):
